@@ -169,10 +169,22 @@ def _first_diff(a, b, path=""):
 
 # ----------------------------------------------------------------------------------------------- oracle
 
-def sig_of(diff: str, fmt: str = "json") -> str:
+def sig_of(diff: str, fmt: str = "json", root=None) -> str:
+    """<fmt>:roundtrip:<Class>.<attribute>:<lost|changed> — class = innermost object on the path of the first difference"""
     path = diff.split(":")[0]
     attrs = re.findall(r"\.([a-z_]+)", path)
     lost = "lost" if diff.rstrip().endswith("!= None") else "changed"
+    cls = None
+    cur = root
+    for tok_ in re.findall(r"\.[a-z_]+|\[\d+\]", path):
+        if isinstance(cur, dict) and "_c" in cur:
+            cls = cur["_c"]
+        try:
+            cur = cur[tok_[1:]] if tok_[0] == "." else cur[int(tok_[1:-1])]
+        except Exception:
+            break
+    if cls is not None and attrs:
+        return f"{fmt}:roundtrip:{cls}.{attrs[-1]}:{lost}"
     return f"{fmt}:roundtrip:{'.'.join(attrs[-2:])}:{lost}"
 
 
@@ -206,7 +218,7 @@ def check_object(obj, case: dict, how: str = "text") -> Optional[C.Failing]:
             o3 = json.loads(json.dumps(obj, cls=AASToJsonEncoder), cls=StrictAASFromJsonDecoder)
             d = canon.diff(c1, canon.canon(o3)) if not isinstance(o3, dict) else "decoder returned a dict"
             if d:
-                return C.Failing(sig_of(d), f"{type(obj).__name__} via encoder/decoder classes: {d[:200]}", case, d)
+                return C.Failing(sig_of(d, "json", c1), f"{type(obj).__name__} via encoder/decoder classes: {d[:200]}", case, d)
             return None
         st2 = roundtrip_store(model.DictObjectStore([obj]), how)
         objs2 = list(st2)
@@ -215,11 +227,11 @@ def check_object(obj, case: dict, how: str = "text") -> Optional[C.Failing]:
                              f"{[type(o).__name__ for o in objs2]}", case)
         d = canon.diff(c1, canon.canon(objs2[0]))
         if d:
-            return C.Failing(sig_of(d), f"{type(obj).__name__} via {how} stream: {d[:200]}", case, d)
+            return C.Failing(sig_of(d, "json", c1), f"{type(obj).__name__} via {how} stream: {d[:200]}", case, d)
         o3 = json.loads(json.dumps(obj, cls=AASToJsonEncoder), cls=StrictAASFromJsonDecoder)
         d = canon.diff(c1, canon.canon(o3)) if not isinstance(o3, dict) else "decoder returned a dict"
         if d:
-            return C.Failing(sig_of(d), f"{type(obj).__name__} via encoder/decoder classes: {d[:200]}", case, d)
+            return C.Failing(sig_of(d, "json", c1), f"{type(obj).__name__} via encoder/decoder classes: {d[:200]}", case, d)
     except Exception as e:
         return C.Failing(f"json:roundtrip:raises:{type(e).__name__}", f"{type(obj).__name__}: {e!r}"[:300], case)
     return None
